@@ -40,11 +40,13 @@ BloomCases == {[Base(1, <<<<>>>>) EXCEPT !.roots = <<>>, !.trk = "bloom", !.cap 
 \* a fetcher that memoises its link slices matters when nodes are fetched more than once: no tracker
 CachedCases == {[c EXCEPT !.cached = TRUE] : c \in Shapes(4, {<<1>>, <<1, 1>>, <<2, 1>>}, {0}, {"none"})}
 
-MQuick    == Shapes(4, RootSeqs(4), {0, 2}, {"map", "none"}) \cup AttrFam(3, {<<1>>}) \cup AliasCases \cup CachedCases
-MThorough == Shapes(5, {<<1>>, <<3, 1>>}, {0, 3}, {"map"}) \cup AttrFam(3, {<<1>>, <<2, 1>>}) \cup AliasCases
+MQuick    == BloomCases \cup Shapes(4, RootSeqs(4), {0, 2}, {"map", "none"}) \cup AttrFam(3, {<<1>>}) \cup AliasCases \cup CachedCases
+MThorough == BloomCases \cup Shapes(5, {<<1>>, <<3, 1>>}, {0, 3}, {"map"}) \cup AttrFam(3, {<<1>>, <<2, 1>>}) \cup AliasCases \cup CachedCases
 GQuickE   == Shapes(4, {<<1>>, <<2, 1>>, <<1, 1>>}, {0, 2}, {"map", "bloom"}) \cup AttrFam(3, {<<1>>}) \cup AliasCases \cup CachedCases
 GThoroughE == Shapes(5, {<<1>>, <<3, 1>>}, {0, 3}, {"map"}) \cup Shapes(4, RootSeqs(4), {0, 2}, {"map", "bloom", "cidset", "none"})
               \cup AttrFam(3, {<<1>>, <<2, 1>>}) \cup AliasCases \cup CachedCases
 \* the dedup counter is the only unbounded variable of the tracker-driver configurations
-BloomBound == dedup <= 2
+\* sanity of the deviation model: with DF enabled some memoising-fetcher configuration must behave observably differently
+NoDeviation == dev = {}
+BloomBound == cfg.roots # <<>> \/ dedup <= 2
 =============================================================================
